@@ -49,6 +49,7 @@ ANCHORS = ["ebuild/processor.py::EbuildProcessor.write", "ebuild/processor.py::E
            "../../data/lib/pkgcore/ebd/ebuild-daemon.bash", "../../data/lib/pkgcore/ebd/ebuild-daemon-lib.bash",
            "../../data/lib/pkgcore/ebd/exit-handling.bash"]
 MAXLINE = 64
+OP_TIMEOUT = int(os.environ.get("VERIF_C35_OP_TIMEOUT", "45"))
 
 
 def gen_tables():
@@ -220,13 +221,18 @@ class Session:
         at = len(self.rec.recs)
         self.rec.recs.append(("C", code))
         try:
-            v = guard(60, fn)
+            v = guard(OP_TIMEOUT, fn)
             res = "1" if (v if truth is None else truth(v)) else "0"
             self.last = res
         except Timeout:
             res = "T"
             v = Err("timeout")
             self.last = "timeout"
+            self.rec.pull()
+            self.oracle.append({"what": "operation %r did not return within %d s although the daemon is alive: python "
+                                        "and the daemon are both waiting for a line (deadlock)" % (code, OP_TIMEOUT),
+                                "session": self.name,
+                                "last_lines": [f"{k} {t[:80]}" for k, t in self.rec.recs[-8:]]})
         except BaseException as e:  # noqa: BLE001
             res = "X"
             v = Err(type(e).__name__)
@@ -493,7 +499,7 @@ class _Src:
         self.get_data = None
 
 
-def scripted_python_session(chk, P, daemon_request_literal):
+def scripted_python_session(chk, P, daemon_request_literal, unknown=False):
     """the REAL python side (EbuildProcessor.run_phase -> generic_handler, ebd._request_bashrcs,
     sandbox_summary, chuck_StoppingCommand) against a SCRIPTED daemon: the lines a daemon sends for a
     phase that sources two bashrcs, then asks for the sandbox summary (with the literal the bash
@@ -502,16 +508,18 @@ def scripted_python_session(chk, P, daemon_request_literal):
     from pkgcore.ebuild import ebd as ebd_mod
     script = ["ebd!", "BASHOPTS UID", "env_received", "request_bashrcs", "next", "next",
               daemon_request_literal + "/nonexistent/sandbox.log", "phases failed ebd::process_ebuild failed"]
+    if unknown:       # a request no handler table lists, then lines that must never be read as commands
+        script = ["ebd!", "BASHOPTS UID", "env_received", "frobnicate 1 2", "phases succeeded"]
     rec = Recorder(chk, P)
     rec.arm()
     ebp = P.EbuildProcessor.__new__(P.EbuildProcessor)
-    ebp.pid = 2 ** 22 + 35            # no such process is ever signalled: nothing calls shutdown here
+    ebp.pid = 2 ** 22 + 35 + int(unknown)   # never signalled: nothing calls shutdown here
     rec.pid = ebp.pid
     ebp._outstanding_expects = []
     ebp._readonly_vars = frozenset()
     ebp.processing_lock = False
     setattr(ebp, "_EbuildProcessor__sandbox_log", "/nonexistent/sandbox.log")
-    ebp.ebd_write = io.StringIO()
+    ebp.ebd_write = open(os.devnull, "w")
     ebp.ebd_read = io.BytesIO(("\n".join(script) + "\n").encode())
     rec.tap(ebp)
     # handshake as __init__ does it
@@ -614,9 +622,13 @@ def main(chk: Check):
         chk.check_assumptions("C35/Prop_C35.v")
     chk.lint(["C35"])
     chk.check_fingerprint(ANCHORS)
+    if os.environ.get("VERIF_C35_PIN") == "1":      # self-tests: keep the quick budget although the source changed
+        chk.fingerprint_changed = False
     timing = chk.cov.setdefault("timing_s", {})
     timing["build"] = round(time.time() - t0, 1)
 
+    import logging
+    logging.getLogger("pkgcore").setLevel(logging.CRITICAL)
     from pkgcore.ebuild import processor as P
     hook = hasattr(P, "_verif_trace")
     chk.cov["trace_source"] = ("in-tree hook PKGCORE_VERIF_TRACE" if hook else
@@ -662,6 +674,13 @@ def main(chk: Check):
                                    "a phase with sandbox violations ends with %r instead of reporting the failed phase"
                                    % (sbx_lit.strip(), res), "session": "scripted-daemon",
                            "last_lines": [f"{k} {t[:80]}" for k, t in rec.recs[-6:]]})
+        rec2, res2 = scripted_python_session(chk, P, sbx_lit, unknown=True)
+        rec2.disarm()
+        unknown_req_trace = rec2.encode()     # not a behaviour of the modelled daemon: must be rejected
+        if res2 != Err("UnhandledCommand"):
+            oracle.append({"what": "a request no handler lists did not end the phase with UnhandledCommand but with %r"
+                                   % (res2,), "session": "scripted-unknown-request",
+                           "last_lines": [f"{k} {t[:80]}" for k, t in rec2.recs[-6:]]})
         if not scanned.get("done"):
             chk.violation("correspondence", {"what": "the bash request functions did not finish against the scripted python"},
                           no_input=True)
@@ -682,11 +701,17 @@ def main(chk: Check):
             chk.sample({"session": name, "trace_head": [f"{k}{t[:60]}" for k, t in s.rec.recs[:14]],
                         "lines": len(s.rec.recs)})
     neg = []
+    if "b" in scanned:
+        neg.append((cstr(unknown_req_trace), False))
+        names_neg = ["scripted-unknown-request"]
+    else:
+        names_neg = []
     for (name, s) in sessions[:3]:
         for kind, m in mutate(s.rec.encode(), chk.rng):
             neg.append((cstr(m), False))
-            names.append(f"{name}/{kind}")
+            names_neg.append(f"{name}/{kind}")
             chk.count("mutated-trace")
+    names += names_neg
     chk.cov["sessions"] = {n: len(s.rec.recs) for n, s in sessions}
 
     bad_idx = []
